@@ -180,7 +180,13 @@ func (q *Queue[T]) pop(i int) T {
 		q.data[i], q.data[n] = q.data[n], out
 		q.move(q.data[i], i) // N.B. we do not report a move of out.
 		q.data = q.data[:n]
-		q.pushDown(i)
+
+		// The value moved into position i may be smaller than its new parent
+		// (it came from a different subtree), so if it did not move down it
+		// may need to move up. Nothing to do if we removed the last element.
+		if i < n && q.pushDown(i) == i {
+			q.pushUp(i)
+		}
 	}
 	return out
 }
